@@ -592,6 +592,35 @@ func main() {
 				}
 			}
 		}
+		// one level down: a genuine slot certificate (issued by a device key whose certificate has just been attested
+		// on this very attestor) presented as "device certificate" for a certificate made with the slot's key. The slot
+		// certificate chains to the device certificate, not to the configured roots, however often that device
+		// certificate has been seen before.
+		for ki := 0; ki < 3 && ki+1 < len(keys); ki++ {
+			d, sk := keys[ki], keys[ki+1]
+			slot, _ := p.issue(&sk.priv.PublicKey, d.f9, d.priv, now.Add(-time.Hour), now.Add(4800*time.Hour))
+			soft, _ := p.issue(&keys[(ki+2)%len(keys)].priv.PublicKey, slot, sk.priv, now.Add(-time.Hour), now.Add(4800*time.Hour))
+			c := next()
+			r.Eval(1)
+			var e1, e2 error
+			if r.Guard(c, "Attest", "slot certificate as device certificate after a genuine attestation", func() {
+				for k := 0; k < 3; k++ {
+					e1 = p.attestor.Attest(d.f9, slot)
+				}
+				e2 = p.attestor.Attest(slot, soft)
+			}) {
+				continue
+			}
+			switch {
+			case e1 != nil:
+				r.Violation(c, "rejects-valid:slot-certificate-issued-by-the-device-key", e1.Error(), nil)
+			case e2 == nil:
+				r.Violation(c, "accepts-invalid:slot-certificate-presented-as-device-certificate-after-its-device-was-attested", fmt.Sprintf("key %d: a certificate signed with a slot key was attested with the slot certificate in the device certificate's place; the slot certificate does not chain to the configured roots", ki), nil)
+			default:
+				r.Count("slot certificate presented as device certificate after its device had been attested -> rejected", 1)
+				r.Nontrivial(fmt.Sprintf("slot-as-device:%d", ki))
+			}
+		}
 		// a root with an RSA key of its own: the slot certificate is signed by the DEVICE key. A well-formed signature
 		// made with the key of the root that issued the device certificate (or of any other certificate the chain
 		// runs through) is a signature by somebody else.
@@ -639,7 +668,29 @@ func main() {
 						r.Count("reference EM cross-checked with crypto/rsa", 1)
 					}
 					submit(d, d.f9, attCase{What: "correct:" + form, Expect: "accept", Alg: int(h.alg)}, good, sig, tbs)
-					// every byte position replaced by 3 other values
+					// a DigestInfo with more in it than the algorithm and the digest: further elements at the end of the
+				// outer sequence or of the algorithm identifier, lengths adjusted so that the structure is well formed
+				for xi, extra := range [][]byte{{0x05, 0x00}, {0x04, 0x03, 1, 2, 3}, {0x02, 0x01, 0x00}, {0x30, 0x00}, {0x0c, 0x01, 'x'}} {
+					if int(t[1])+len(extra) > 0x7f {
+						continue
+					}
+					tail := append(append([]byte{}, t...), extra...)
+					tail[1] += byte(len(extra))
+					if e := em(d.k, tail); e != nil {
+						submit(d, d.f9, attCase{What: "digestinfo-with-further-element-at-the-end:" + form, Expect: "reject", Alg: int(h.alg), Position: xi}, e, nil, tbs)
+					}
+					if !null && xi == 0 {
+						continue // a NULL after the identifier of the form without one IS the other accepted form
+					}
+					algEnd := 4 + int(t[3])
+					inner := append(append(append([]byte{}, t[:algEnd]...), extra...), t[algEnd:]...)
+					inner[1] += byte(len(extra))
+					inner[3] += byte(len(extra))
+					if e := em(d.k, inner); e != nil {
+						submit(d, d.f9, attCase{What: "digestinfo-with-further-element-in-the-algorithm-identifier:" + form, Expect: "reject", Alg: int(h.alg), Position: xi}, e, nil, tbs)
+					}
+				}
+				// every byte position replaced by 3 other values
 					positions := make([]int, 0, d.k)
 					if exhaustive[bits] {
 						for i := 0; i < d.k; i++ {
